@@ -15,7 +15,7 @@ from ..profile import Profile, agg_add, gen_record, gen_size, gen_periods, gen_f
 from . import c04 as c04mod
 from .c04 import nd, MUT_SIG, MUT_ACC, KOPS, _cls_name
 
-BUF_KINDS = ["f8", "f8", "f8", "f4", "i8", "list", "tuple", "view", "view_strided", "f8_2d", "list_of_arrays"]
+BUF_KINDS = ["f8", "f8", "f8", "f4", "i8", "list", "tuple", "view", "view_strided", "view_readonly", "f8_2d", "list_of_arrays"]
 ROUTES = ["Signal()", "AccSignal()", "Cluster()", "reset_values", "time_match"]
 INPLACE = ["running_average", "remove_rolling_average:acc", "remove_rolling_average:velocity", "rebase_displacement",
            "set_zero_residual_velocity:none", "set_zero_residual_velocity:tz", "set_zero_residual_velocity:tz_open",
@@ -113,6 +113,7 @@ def _mk_table():
     reg("stockwell.transform", "stockwell.transform", lambda G: ([G.rec(nd_only=True, max_n=96, min_n=4)], {}))
     reg("stockwell.transform_w_scipy_fft", "stockwell.transform_w_scipy_fft",
         lambda G: ([G.rec(nd_only=True, max_n=96, min_n=4)], {}))
+    reg("stockwell.generate_gaussian", "stockwell.generate_gaussian", lambda G: ([G.rng.choice([4, 8, 16, 24, 32, 48])], {}))
     reg("stockwell.itransform", "stockwell.itransform", lambda G: ([G.arr_stock()], {}))
     reg("stockwell.dep_itransform", "stockwell.dep_itransform", lambda G: ([G.arr_stock()], {}))
     reg("stockwell.get_max_tifq_vals_freq", "stockwell.get_max_tifq_vals_freq", lambda G: ([G.arr_stock(), G.dt()], {}))
@@ -171,11 +172,11 @@ TABLE = _mk_table()
 HIDDEN_STATE = {"im.calc_sir", "im.calc_acc_rms", "stockwell.get_max_stockwell_freq"}
 
 
-SRC_KINDS = ["f8", "f4", "i8", "list", "tuple", "view", "view_strided", "f8_2d:row", "object.values"]
+SRC_KINDS = ["f8", "f4", "i8", "list", "tuple", "view", "view_strided", "view_readonly", "f8_2d:row", "object.values"]
 SWEEP_ROUTES = ["Signal()", "AccSignal()", "Cluster()", "reset_values:Signal", "reset_values:AccSignal"]
 FOLLOW = ["caller-write"] + ["inplace:" + m for m in INPLACE] + ["mut:add_constant", "mut:remove_poly", "mut:butter_pass:low"]
 SWEEP_OWN = [(k, r, f) for k in SRC_KINDS for r in SWEEP_ROUTES for f in FOLLOW]
-REC_KINDS = ["f8", "f4", "i8", "list", "tuple", "view", "view_strided", "object.values"]
+REC_KINDS = ["f8", "f4", "i8", "list", "tuple", "view", "view_strided", "view_readonly", "object.values"]
 SWEEP_PURE = [(name, k) for name in sorted(TABLE) for k in REC_KINDS]
 N_SWEEP = len(SWEEP_OWN) + len(SWEEP_PURE)
 
@@ -203,6 +204,31 @@ class World(object):
         self.tmpdir = None
         self.call_memo = {}     # (call record, digests of everything it refers to) -> first outcome
         self.call_log = []      # call records issued so far (for deliberate re-issue later in the history)
+
+
+def _has_signal(v):
+    if hasattr(v, "values") and hasattr(v, "dt"):
+        return True
+    if isinstance(v, (list, tuple)):
+        return any(_has_signal(x) for x in v)
+    return False
+
+
+def _scribble(v, inputs):
+    """Overwrite, in place, every writable array inside a returned value that shares no memory with an input."""
+    n = 0
+    if isinstance(v, np.ndarray):
+        if v.size and v.flags.writeable and v.dtype.kind in "fciu" and not any(np.shares_memory(v, i) for i in inputs):
+            if v.dtype.kind in "fc":
+                v *= -2.0
+                v += 1.0
+            else:
+                v += 3
+            n += 1
+    elif isinstance(v, (list, tuple)):
+        for x in v:
+            n += _scribble(x, inputs)
+    return n
 
 
 def _copy_buf(b):
@@ -365,12 +391,15 @@ class C05(Profile):
         if k == "buf":
             kind = op["kind"]
             data = codec.dec(op["data"])
-            if kind in ("view", "view_strided"):
+            if kind in ("view", "view_strided", "view_readonly"):
                 base = np.array(data, dtype=float)
                 world.bufs[op["b"] + "^"] = base
                 world.kind[op["b"] + "^"] = "f8"
                 off, n, step = op["off"], op["n"], op.get("step", 1)
-                world.bufs[op["b"]] = base[off:off + n * step:step]
+                view = base[off:off + n * step:step]
+                if kind == "view_readonly":
+                    view.flags.writeable = False     # the caller hands out a read-only window onto memory it keeps writing
+                world.bufs[op["b"]] = view
                 world.bases[op["b"]] = op["b"] + "^"
             else:
                 world.bufs[op["b"]] = data
@@ -379,6 +408,10 @@ class C05(Profile):
         if k == "write":
             b = world.bufs[op["b"]]
             how = op["how"]
+            if world.kind.get(op["b"]) == "view_readonly":
+                base = world.bufs[world.bases[op["b"]]]
+                off = op.get("off_in_base", 0)
+                b = base[off:off + len(b)]            # the same memory, through the caller's own writable array
             if how == "row":
                 b[op["i"]] *= op["v"]       # the caller scales one of the arrays in its own list
             elif isinstance(b, np.ndarray):
@@ -602,6 +635,19 @@ class C05(Profile):
         agg_add(st["call_outcomes"], "ok" if out1.ok else out1.exc)
         if fired:
             return out1, None, fired       # a faulted call may fail; its result is not compared with anything
+        if out1.ok and not TABLE[op["f"]]["path"].startswith(("io:", "method:")):
+            # K4 on results: what an analysis function returned belongs to the caller, who may overwrite it; the next
+            # call must not care.  (Compared against a copy taken first; arrays that share memory with an argument or
+            # with an object's values are left alone -- returning a view of an input is not forbidden.)
+            keep = copy.deepcopy(out1.value) if not _has_signal(out1.value) else None
+            if keep is not None:
+                inputs = list(eph) + [b for b in world.bufs.values() if isinstance(b, np.ndarray)] + \
+                    [o.values for o in world.objs.values() if isinstance(o.values, np.ndarray)]
+                n_scr = _scribble(out1.value, inputs)
+                if n_scr:
+                    st["faults"]["K4"]["armed"] += n_scr
+                    st["faults"]["K4"]["fired"] += n_scr
+                out1 = type(out1)(True, keep)
         # I5: the same call again gives the same outcome
         if not TABLE[op["f"]]["path"].startswith("io:"):
             out2 = capture(self._exec, world, op, [])
@@ -771,7 +817,7 @@ class C05(Profile):
             if o["op"] == "buf":
                 data = o["data"]
                 vals = data["v"] if isinstance(data, dict) and "nd" in data else (data["tu"] if isinstance(data, dict) else data)
-                if o["kind"] not in ("view", "view_strided", "f8_2d", "list_of_arrays"):
+                if o["kind"] not in ("view", "view_strided", "view_readonly", "f8_2d", "list_of_arrays"):
                     for n in (32, 16, 8, 4, 2):
                         if len(vals) > n:
                             o2 = dict(o)
@@ -999,7 +1045,7 @@ class Gen(object):
                 sh = ([base[0]] * lag + base[:n - lag]) if lag else list(base)
                 rows.append([round(v + rng.gauss(0, 0.01), 6) for v in sh])
             op["data"] = {"nd": "f8", "v": rows} if kind == "f8_2d" else [nd(r) for r in rows]
-        elif kind == "view":
+        elif kind in ("view", "view_readonly"):
             off = rng.randint(1, 5)
             pad = gen_record(rng, off) + vals + gen_record(rng, rng.randint(1, 4))
             op.update(data=nd(pad), off=off, n=n, step=1)
@@ -1038,6 +1084,9 @@ class Gen(object):
         if world.kind.get(b) == "list_of_arrays":
             return {"op": "write", "b": b, "how": "row", "i": rng.randrange(n), "v": rng.choice([2.0, -1.0, 0.5])}
         op = {"op": "write", "b": b, "how": how}
+        if world.kind.get(b) == "view_readonly":
+            base = world.bufs[world.bases[b]]
+            op["off_in_base"] = int((world.bufs[b].__array_interface__["data"][0] - base.__array_interface__["data"][0]) // 8)
         if how == "slice":
             i = rng.randrange(n)
             j = min(n, i + rng.randint(1, max(1, n // 2)))
@@ -1422,7 +1471,13 @@ class Gen(object):
     def smooth_args(self, with_spectrum):
         fr, fa = self._fa_pair()
         kw = self.some({"band": self.rng.choice([20, 40])})
-        sm = {"arr": nd(gen_freqs(self.rng))}
+        fq = gen_freqs(self.rng)
+        c = self.rng.random()
+        if c < 0.2:
+            fq = [0.0] + fq                       # a smoothing grid that starts at exactly 0 Hz
+        elif c < 0.3:
+            fq = list(fr["arr"]["v"])             # the Fourier axis itself in both roles
+        sm = {"arr": nd(fq)}
         if with_spectrum:
             return ([fr, fa, sm], kw) if self.rng.random() < 0.8 else ([fr, fa], kw)
         return ([fr, sm], kw) if self.rng.random() < 0.8 else ([fr], kw)
